@@ -170,7 +170,15 @@ class PartProcessor(PartHandler, Maintainable):
         self._release_reserved_resources()
         self._env.add_datapoint('device_failure', self.name,
                 (self._env.now, lost_part.id if lost_part else None))
-        self._shutdown(True, lost_part)
+        if self._is_shut_down:
+            # Already shut down: events paused by the shutdown must not
+            # resume and a lost Part still has to be reported.
+            self._env.cancel_matching_events(asset_id = self.id)
+            if lost_part != None:
+                for c in self._shutdown_callbacks:
+                    c(self, True, lost_part)
+        else:
+            self._shutdown(True, lost_part)
 
     def shutdown(self):
         '''Shutdown the PartProcessor.
